@@ -36,4 +36,5 @@ let () =
   | _ :: "ctor" :: args -> M_codec.mode_ctor args
   | _ :: "conn" :: args -> M_conn.mode_conn args
   | _ :: "lin" :: args -> M_lin.mode_lin args
+  | _ :: "life" :: args -> M_life.mode_life args
   | _ -> prerr_endline "usage: modelrun <mode> [args]"; exit 2
